@@ -127,7 +127,7 @@ Definition calc1_spec (ps : list (Qc * Qc)) (bins : list bin) : list (Qc * Qc) *
   if consecutive_tol bins then (spec_bins1 ps bins, Fin (spec_under ps bins), Fin (spec_over ps bins))
   else (spec_bins1 ps bins, NaN, NaN).
 
-Definition step_coded := step false find_axis_coded calc1d axis_index_coded.
+Definition step_coded := step true find_axis_coded calc1d axis_index_coded.      (* a NaN is skipped by fill since /repo fix (F19) *)
 Definition step_spec := step true find_axis_spec calc1_spec axis_index_spec.
 
 Fixpoint run_hist (st : fstate -> fop -> fstate * fret) (s : fstate) (ops : list fop) : list (fstate * fret) :=
